@@ -250,6 +250,11 @@ impl<'a> Parser<'a> {
             return self.parse_slice(None);
         }
 
+        // `::` is lexed as a single token (path separator); inside brackets it is two slice colons: `[::step]`
+        if self.match_token(&TokenKind::Punctuation(PunctuationId::ColonColon)) {
+            return self.parse_slice_step(None);
+        }
+
         // Check for immediate closing bracket (not valid, but let expression handle error)
         if self.check(&TokenKind::Punctuation(PunctuationId::RBracket)) {
             return Err(CompileError::syntax(
@@ -266,8 +271,28 @@ impl<'a> Parser<'a> {
             return self.parse_slice(Some(first));
         }
 
+        // `[start::step]`
+        if self.match_token(&TokenKind::Punctuation(PunctuationId::ColonColon)) {
+            return self.parse_slice_step(Some(first));
+        }
+
         // Just a regular index
         Ok(IndexOrSlice::Index(first))
+    }
+
+    /// Parse the optional step after `start::` (both colons already consumed, so `end` is absent)
+    fn parse_slice_step(&mut self, start: Option<Spanned<Expr>>) -> Result<IndexOrSlice, CompileError> {
+        let step = if !self.check(&TokenKind::Punctuation(PunctuationId::RBracket)) {
+            Some(Box::new(self.expression()?))
+        } else {
+            None
+        };
+
+        Ok(IndexOrSlice::Slice(SliceExpr {
+            start: start.map(Box::new),
+            end: None,
+            step,
+        }))
     }
 
     /// Parse slice syntax after optional start expression
